@@ -257,6 +257,19 @@ fn table_seeds(font_name: &str, font: &FontRef, out: &mut Vec<Seed>, st: &mut Se
             let glyf = get(b"glyf");
             let loca = get(b"loca");
             if !glyf.is_empty() && !loca.is_empty() {
+                // the hostile-glyf counterpart: glyf is deviated, gvar + loca are pristine context
+                let gn = glyf.len();
+                out.push(Seed {
+                    name: format!("{}#glyf+gvar+loca", font_name),
+                    class: "table",
+                    ty: None,
+                    args: [0; 3],
+                    drivers: vec![(drv("gvar2"), [is_long, num_glyphs, 1])],
+                    data: glyf.clone(),
+                    ctx: vec![data.clone(), loca.clone()],
+                    pos_limit: gn,
+                    extra_trunc: vec![],
+                });
                 let n = data.len();
                 out.push(Seed {
                     name: format!("{}#gvar+glyf+loca", font_name),
@@ -441,6 +454,8 @@ pub fn build_seeds(tier: Tier) -> (Vec<Seed>, SeedStats) {
             Err(_) => {}
         }
     }
+    // (i-b) synthesised families for recursion guards (independent of the corpus)
+    crate::synth::synth_seeds(&mut out);
     // (ii) font-test-data static blobs: fit matrix — a blob seeds every type (and argument value)
     // that reads it successfully, exposes >= 2 fields, resolves everything without a single error and
     // visits at least one node per 4 bytes of the blob (i.e. the type's shape really covers the blob;
@@ -642,6 +657,7 @@ pub fn deserialize(b: &[u8]) -> Option<(Vec<Seed>, SeedStats)> {
             b"file" => "file",
             b"static" => "static",
             b"zero" => "zero",
+            b"synth" => "synth",
             _ => return None,
         };
         let ty = match r.u32()? {
